@@ -721,6 +721,10 @@ func (r *reporter) Fatalf(f string, a ...interface{}) { panic(fmt.Sprintf(f, a..
 type partMeta struct {
 	ID         int32 `json:"id"`
 	Leaderless bool  `json:"leaderless"`
+	// Degraded: the partition has a leader but its metadata carries a partition-level error other than
+	// LEADER_NOT_AVAILABLE (REPLICA_NOT_AVAILABLE: a follower is down). Its leader is available, so it is writable;
+	// the model sees it as an ordinary partition with a leader.
+	Degraded bool `json:"degraded,omitempty"`
 }
 type topicMeta struct {
 	Known bool       `json:"known"`
@@ -747,7 +751,7 @@ func genMeta(r *rand.Rand) topicMeta {
 		default:
 			l = r.Intn(2) == 0
 		}
-		tm.Parts = append(tm.Parts, partMeta{int32(id), l})
+		tm.Parts = append(tm.Parts, partMeta{ID: int32(id), Leaderless: l, Degraded: !l && r.Intn(3) == 0})
 	}
 	return tm
 }
@@ -771,6 +775,8 @@ func metadataResponse(b *sarama.MockBroker, topic string, tm topicMeta) *sarama.
 		for _, p := range tm.Parts {
 			if p.Leaderless {
 				resp.AddTopicPartition(topic, p.ID, -1, nil, nil, nil, sarama.ErrLeaderNotAvailable)
+			} else if p.Degraded {
+				resp.AddTopicPartition(topic, p.ID, b.BrokerID(), nil, nil, nil, sarama.ErrReplicaNotAvailable)
 			} else {
 				resp.AddTopicPartition(topic, p.ID, b.BrokerID(), nil, nil, nil, sarama.ErrNoError)
 			}
@@ -1215,14 +1221,21 @@ func main() {
 		tm topicMeta
 		ms []rmsg
 	}
-	tmMixed := topicMeta{Known: true, Parts: []partMeta{{5, false}, {0, true}, {2, false}, {9, true}}}
+	tmMixed := topicMeta{Known: true, Parts: []partMeta{{ID: 5}, {ID: 0, Leaderless: true}, {ID: 2}, {ID: 9, Leaderless: true}}}
+	// partitions with a live leader whose metadata carries REPLICA_NOT_AVAILABLE stay writable (adversary change C17-11)
+	tmDegraded := topicMeta{Known: true, Parts: []partMeta{{ID: 4, Degraded: true}, {ID: 1}, {ID: 7, Leaderless: true}, {ID: 6, Degraded: true}}}
+	tmAllDegraded := topicMeta{Known: true, Parts: []partMeta{{ID: 0, Degraded: true}}}
 	rcorpus := []rc{
 		{partSpec{Kind: "custom", Opts: []optSpec{{Kind: "fallback", Arg: &fbArg}}}, tmMixed, []rmsg{{Key: keySpec{Kind: "nil"}}, {Key: keySpec{Kind: "bytes", Bytes: []byte("a")}}}},
 		{partSpec{Kind: "hash"}, tmMixed, []rmsg{{Key: keySpec{Kind: "bytes", Bytes: specialKeys[0]}}, {Key: keySpec{Kind: "nil"}}, {Key: keySpec{Kind: "bytes", Bytes: negKeys[0]}}}},
 		{partSpec{Kind: "roundrobin"}, tmMixed, []rmsg{{Key: keySpec{Kind: "nil"}}, {Key: keySpec{Kind: "bytes", Bytes: []byte("x")}}, {Key: keySpec{Kind: "nil"}}}},
 		{partSpec{Kind: "manual"}, tmMixed, []rmsg{{MPart: 0, Key: keySpec{Kind: "nil"}}, {MPart: 3, Key: keySpec{Kind: "nil"}}, {MPart: 4, Key: keySpec{Kind: "nil"}}, {MPart: -1, Key: keySpec{Kind: "nil"}}}},
-		{partSpec{Kind: "random"}, topicMeta{Known: true, Parts: []partMeta{{1, true}, {3, true}}}, []rmsg{{Key: keySpec{Kind: "nil"}}}},
+		{partSpec{Kind: "random"}, topicMeta{Known: true, Parts: []partMeta{{ID: 1, Leaderless: true}, {ID: 3, Leaderless: true}}}, []rmsg{{Key: keySpec{Kind: "nil"}}}},
 		{partSpec{Kind: "hash"}, topicMeta{Known: true, Parts: []partMeta{}}, []rmsg{{Key: keySpec{Kind: "nil"}}, {Key: keySpec{Kind: "bytes", Bytes: []byte("a")}}}},
+		{partSpec{Kind: "roundrobin"}, tmDegraded, []rmsg{{Key: keySpec{Kind: "nil"}}, {Key: keySpec{Kind: "nil"}}, {Key: keySpec{Kind: "nil"}}, {Key: keySpec{Kind: "nil"}}}},
+		{partSpec{Kind: "hash"}, tmDegraded, []rmsg{{Key: keySpec{Kind: "nil"}}, {Key: keySpec{Kind: "bytes", Bytes: []byte("a")}}}},
+		{partSpec{Kind: "random"}, tmAllDegraded, []rmsg{{Key: keySpec{Kind: "nil"}}}},
+		{partSpec{Kind: "roundrobin"}, tmAllDegraded, []rmsg{{Key: keySpec{Kind: "nil"}}, {Key: keySpec{Kind: "nil"}}}},
 	}
 	var dreplay []dmsg
 	if rp.Case != nil {
